@@ -159,7 +159,10 @@ pub fn siblings(dest: &Path) -> Vec<PathBuf> {
 impl<'a> Ctx<'a> {
     pub fn new(cache: PathBuf, scratch: PathBuf, keys: &'a [String], blobs: &'a [Blob]) -> Ctx<'a> {
         use std::os::unix::fs::MetadataExt;
-        let cache_id = std::fs::metadata(&cache).ok().filter(|m| m.is_dir()).map(|m| (m.dev(), m.ino()));
+        // (only when the path leads through a symbolic link: replacing that link is a change
+        // outside the cache directory; how a call empties a plainly named directory is its business)
+        let through_link = std::fs::canonicalize(&cache).map(|c| c != crate::sup::normalise(&cache)).unwrap_or(false);
+        let cache_id = std::fs::metadata(&cache).ok().filter(|m| m.is_dir() && through_link).map(|m| (m.dev(), m.ino()));
         Ctx { cache, scratch, keys, blobs, bytes: RefCell::new(HashMap::new()), dest_n: Cell::new(0), cache_id }
     }
     /// The path given as the cache still names the directory it named at the start (a call
@@ -169,7 +172,7 @@ impl<'a> Ctx<'a> {
         if let Some(id) = self.cache_id {
             match std::fs::metadata(&self.cache) {
                 Ok(m) if (m.dev(), m.ino()) == id => {}
-                Ok(m) => return Err(format!("the cache path {} no longer names the directory it named before (inode {} -> {})", self.cache.display(), id.1, m.ino())),
+                Ok(m) => return Err(format!("the cache path {} (which leads through a symbolic link) no longer names the directory it named before (inode {} -> {}): something outside the cache directory was replaced", self.cache.display(), id.1, m.ino())),
                 Err(_) => {}
             }
         }
@@ -602,72 +605,114 @@ async fn do_write_async(ctx: &Ctx<'_>, s: &WriteSpec) -> Out {
     }
 }
 
-/// Two streaming writers open at the same time (see `Op::TwoWriters`).
-fn do_two_sync(ctx: &Ctx, a: &WriteSpec, b: &WriteSpec, b_first: bool) -> Out {
-    let (da, db) = (ctx.blob(a.blob), ctx.blob(b.blob));
-    let mut wa = open_sync_writer(ctx, a, &da).map_err(err_out);
-    let mut wb = open_sync_writer(ctx, b, &db).map_err(err_out);
-    let (ca, cb) = (cut_chunks(&da, &a.chunks), cut_chunks(&db, &b.chunks));
-    for i in 0..ca.len().max(cb.len()) {
-        for (w, chunks) in [(&mut wa, &ca), (&mut wb, &cb)] {
-            if let (Ok(wr), Some(ch)) = (w.as_mut(), chunks.get(i)) {
-                if let Err(e) = sync_write_chunk(wr, ch) {
-                    *w = Err(io_out(e));
-                }
-            }
-        }
-    }
-    let fin = |w: Result<cacache::SyncWriter, Out>| match w {
-        Ok(w) => match w.commit() {
-            Ok(sri) => Out::Int(sri.to_string()),
-            Err(e) => err_out(e),
-        },
-        Err(o) => o,
-    };
-    let (oa, ob) = if b_first {
-        let ob = fin(wb);
-        (fin(wa), ob)
-    } else {
-        let oa = fin(wa);
-        (oa, fin(wb))
-    };
-    Out::Pair(Box::new(oa), Box::new(ob))
+/// Two streaming writers open at the same time (see `Op::TwoWriters`). The schedule is a list
+/// of actions: open / write chunk i / write the rest / commit, for writer 0 (a) or 1 (b).
+#[derive(Clone, Copy)]
+enum TwoAct {
+    Open(usize),
+    Chunk(usize, usize),
+    Rest(usize),
+    Commit(usize),
 }
 
-async fn do_two_async(ctx: &Ctx<'_>, a: &WriteSpec, b: &WriteSpec, b_first: bool) -> Out {
-    let (da, db) = (ctx.blob(a.blob), ctx.blob(b.blob));
-    let mut wa = open_async_writer(ctx, a, &da).await.map_err(err_out);
-    let mut wb = open_async_writer(ctx, b, &db).await.map_err(err_out);
-    let (ca, cb) = (cut_chunks(&da, &a.chunks), cut_chunks(&db, &b.chunks));
-    for i in 0..ca.len().max(cb.len()) {
-        if let (Ok(wr), Some(ch)) = (wa.as_mut(), ca.get(i)) {
-            if let Err(e) = async_write_chunk(wr, ch).await {
-                wa = Err(io_out(e));
+fn two_plan(plan: u8, na: usize, nb: usize) -> Vec<TwoAct> {
+    use TwoAct::*;
+    match plan % 4 {
+        0 | 1 => {
+            let mut v = vec![Open(0), Open(1)];
+            for i in 0..na.max(nb) {
+                v.push(Chunk(0, i));
+                v.push(Chunk(1, i));
             }
+            if plan % 4 == 0 {
+                v.extend([Commit(0), Commit(1)]);
+            } else {
+                v.extend([Commit(1), Commit(0)]);
+            }
+            v
         }
-        if let (Ok(wr), Some(ch)) = (wb.as_mut(), cb.get(i)) {
-            if let Err(e) = async_write_chunk(wr, ch).await {
-                wb = Err(io_out(e));
+        2 => vec![Open(0), Rest(0), Open(1), Commit(0), Rest(1), Commit(1)],
+        _ => vec![Open(0), Chunk(0, 0), Open(1), Rest(1), Commit(1), Rest(0), Commit(0)],
+    }
+}
+
+/// Which writer commits first under `plan`.
+pub fn two_b_first(plan: u8) -> bool {
+    matches!(plan % 4, 1 | 3)
+}
+
+fn do_two_sync(ctx: &Ctx, a: &WriteSpec, b: &WriteSpec, plan: u8) -> Out {
+    let specs = [a, b];
+    let data = [ctx.blob(a.blob), ctx.blob(b.blob)];
+    let chunks = [cut_chunks(&data[0], &a.chunks), cut_chunks(&data[1], &b.chunks)];
+    let mut w: [Option<Result<cacache::SyncWriter, Out>>; 2] = [None, None];
+    let mut next = [0usize; 2];
+    let mut outs: [Option<Out>; 2] = [None, None];
+    for act in two_plan(plan, chunks[0].len(), chunks[1].len()) {
+        match act {
+            TwoAct::Open(i) => w[i] = Some(open_sync_writer(ctx, specs[i], &data[i]).map_err(err_out)),
+            TwoAct::Chunk(i, _) | TwoAct::Rest(i) => {
+                let upto = if let TwoAct::Chunk(_, c) = act { (c + 1).min(chunks[i].len()) } else { chunks[i].len() };
+                while next[i] < upto {
+                    if let Some(Ok(wr)) = w[i].as_mut() {
+                        if let Err(e) = sync_write_chunk(wr, chunks[i][next[i]]) {
+                            w[i] = Some(Err(io_out(e)));
+                        }
+                    }
+                    next[i] += 1;
+                }
+            }
+            TwoAct::Commit(i) => {
+                outs[i] = Some(match w[i].take() {
+                    Some(Ok(wr)) => match wr.commit() {
+                        Ok(sri) => Out::Int(sri.to_string()),
+                        Err(e) => err_out(e),
+                    },
+                    Some(Err(o)) => o,
+                    None => Out::Panic("harness: commit before open".into()),
+                })
             }
         }
     }
-    async fn fin(w: Result<cacache::Writer, Out>) -> Out {
-        match w {
-            Ok(w) => match w.commit().await {
-                Ok(sri) => Out::Int(sri.to_string()),
-                Err(e) => err_out(e),
-            },
-            Err(o) => o,
+    let [oa, ob] = outs;
+    Out::Pair(Box::new(oa.unwrap_or(Out::Unit)), Box::new(ob.unwrap_or(Out::Unit)))
+}
+
+async fn do_two_async(ctx: &Ctx<'_>, a: &WriteSpec, b: &WriteSpec, plan: u8) -> Out {
+    let specs = [a, b];
+    let data = [ctx.blob(a.blob), ctx.blob(b.blob)];
+    let chunks = [cut_chunks(&data[0], &a.chunks), cut_chunks(&data[1], &b.chunks)];
+    let mut w: [Option<Result<cacache::Writer, Out>>; 2] = [None, None];
+    let mut next = [0usize; 2];
+    let mut outs: [Option<Out>; 2] = [None, None];
+    for act in two_plan(plan, chunks[0].len(), chunks[1].len()) {
+        match act {
+            TwoAct::Open(i) => w[i] = Some(open_async_writer(ctx, specs[i], &data[i]).await.map_err(err_out)),
+            TwoAct::Chunk(i, _) | TwoAct::Rest(i) => {
+                let upto = if let TwoAct::Chunk(_, c) = act { (c + 1).min(chunks[i].len()) } else { chunks[i].len() };
+                while next[i] < upto {
+                    if let Some(Ok(wr)) = w[i].as_mut() {
+                        if let Err(e) = async_write_chunk(wr, chunks[i][next[i]]).await {
+                            w[i] = Some(Err(io_out(e)));
+                        }
+                    }
+                    next[i] += 1;
+                }
+            }
+            TwoAct::Commit(i) => {
+                outs[i] = Some(match w[i].take() {
+                    Some(Ok(wr)) => match wr.commit().await {
+                        Ok(sri) => Out::Int(sri.to_string()),
+                        Err(e) => err_out(e),
+                    },
+                    Some(Err(o)) => o,
+                    None => Out::Panic("harness: commit before open".into()),
+                })
+            }
         }
     }
-    let (oa, ob) = if b_first {
-        let ob = fin(wb).await;
-        (fin(wa).await, ob)
-    } else {
-        let oa = fin(wa).await;
-        (oa, fin(wb).await)
-    };
-    Out::Pair(Box::new(oa), Box::new(ob))
+    let [oa, ob] = outs;
+    Out::Pair(Box::new(oa.unwrap_or(Out::Unit)), Box::new(ob.unwrap_or(Out::Unit)))
 }
 
 fn do_abandon_sync(ctx: &Ctx, s: &WriteSpec, at: AbandonAt) -> Out {
@@ -1028,7 +1073,7 @@ fn do_sync(ctx: &Ctx, op: &Op) -> Out {
         Op::IdxDelete { key } => unit(cacache::index::delete(cache, ctx.key(*key))),
         Op::LinkTo(l) => do_link_sync(ctx, l),
         Op::Abandon { spec, at } => do_abandon_sync(ctx, spec, *at),
-        Op::TwoWriters { a, b, b_first } => do_two_sync(ctx, a, b, *b_first),
+        Op::TwoWriters { a, b, plan } => do_two_sync(ctx, a, b, *plan),
         Op::DamageContent { .. } | Op::DamageBucket { .. } | Op::ForeignRecord { .. } | Op::Chdir { .. } | Op::PlantRecord { .. } | Op::TmpElsewhere => unreachable!(),
     }
 }
@@ -1121,7 +1166,7 @@ async fn do_async(ctx: &Ctx<'_>, op: &Op) -> Out {
         Op::IdxDelete { key } => unit(cacache::index::delete_async(cache, ctx.key(*key)).await),
         Op::LinkTo(l) => do_link_async(ctx, l).await,
         Op::Abandon { spec, at } => do_abandon_async(ctx, spec, *at).await,
-        Op::TwoWriters { a, b, b_first } => do_two_async(ctx, a, b, *b_first).await,
+        Op::TwoWriters { a, b, plan } => do_two_async(ctx, a, b, *plan).await,
         Op::DamageContent { .. } | Op::DamageBucket { .. } | Op::ForeignRecord { .. } | Op::Chdir { .. } | Op::PlantRecord { .. } | Op::TmpElsewhere => unreachable!(),
     }
 }
